@@ -79,6 +79,14 @@ def gen_attrs(rng, target):
     attrs[1] = updenc.tlv(0x40, 1, bytes([rng.below(3)]))
     n = rng.below(6)
     attrs[2] = updenc.tlv(0x40, 2, (bytes([2, n]) + b''.join(struct.pack('>I', rng.choice([1, 65000, 4200000000])) for _ in range(n))) if n else b'')
+    if target > 1400 and rng.chance(1, 3):
+        # a path of more than 255 distinct ASNs: several AS_SEQUENCE segments, in the segmentation compose() gives it (the
+        # remainder first, then segments of 255)
+        tot = rng.choice([n for n in (256, 257, 300, 510, 511, 600) if 4 * n + 12 < target - 40])
+        asns = [64512 + i for i in range(tot)]
+        cut = tot % 255
+        segs = ([asns[:cut]] if cut else []) + [asns[i:i + 255] for i in range(cut, tot, 255)]
+        attrs[2] = updenc.tlv(0x40, 2, b''.join(bytes([2, len(g)]) + b''.join(struct.pack('>I', a) for a in g) for g in segs))
     if rng.chance(1, 2):
         attrs[3] = updenc.tlv(0x40, 3, bytes(rng.below(256) for _ in range(4)))
     if rng.chance(1, 2):
